@@ -6,12 +6,10 @@ package main
 // directory is replayed afterwards: every acknowledged write exactly once, a failed write nowhere.
 // Implementation-only component: one scenario per script line, one verdict line per scenario:
 //   ok ...            nothing wrong
-//   known KF-... ...  an instance of a known finding (strict shape checked here AND in lib/findings.py)
 //   bad <kind> ...    a violation
 
 import (
 	"bufio"
-	"bytes"
 	"errors"
 	"fmt"
 	"math/rand"
@@ -34,6 +32,17 @@ import (
 
 func init() {
 	components["lin"] = &component{gen: genLin, run: runLin}
+	// the seqrot scenarios alone (C08: sequence numbers under writers racing log rotations)
+	components["seqrot"] = &component{gen: func(g *gen, n int, tier string, w *bufio.Writer) {
+		for c := 0; c < n; c++ {
+			fmt.Fprintf(w, "# case %d\n", c)
+			ms := g.pick(400, 800)
+			if tier == "thorough" {
+				ms = g.pick(1500, 3000)
+			}
+			fmt.Fprintf(w, "seqrot seed=%d threads=%d ms=%d procs=%d\n", g.intn(1<<30), g.pick(1, 2, 4), ms, g.pick(2, 4, 16))
+		}
+	}, run: runLin}
 }
 
 func genLin(g *gen, n int, tier string, w *bufio.Writer) {
@@ -41,6 +50,14 @@ func genLin(g *gen, n int, tier string, w *bufio.Writer) {
 		fmt.Fprintf(w, "# case %d\n", c)
 		if c%6 == 5 {
 			fmt.Fprintf(w, "d19 seed=%d\n", g.intn(1<<30))
+			continue
+		}
+		if c%6 == 2 { // writers against back-to-back rotations: sequence numbers must stay unique and increasing (C08)
+			ms := g.pick(400, 800)
+			if tier == "thorough" {
+				ms = g.pick(1500, 3000)
+			}
+			fmt.Fprintf(w, "seqrot seed=%d threads=%d ms=%d procs=%d\n", g.intn(1<<30), g.pick(1, 2, 4), ms, g.pick(2, 4, 16))
 			continue
 		}
 		threads, ops := g.pick(3, 4, 6, 8), g.pick(60, 100, 150)
@@ -240,56 +257,48 @@ func replayPerFile(dir string) (recs []walRec, err error) {
 	return recs, nil
 }
 
-// logCheck compares the replayed log with the acknowledged / failed writes. Returns (bad, known, stats).
-func logCheck(dir string, ops []*linOp) (bad []string, known []string, nrec int) {
+// logCheck compares the replayed log directory with the acknowledged / failed writes, at full strength (D19 is repaired):
+// every acknowledged put exactly once with its key, a failed put nowhere, delete records per key = acknowledged deletes
+// (a failed delete leaves nothing), and the sequence numbers strictly increasing in log order (unique, never reused
+// across a rotation: C08). Returns the problems and the number of records.
+func logCheck(dir string, ops []*linOp) (bad []string, nrec int) {
 	recs, err := replayPerFile(filepath.Join(dir, "wal"))
 	if err != nil {
-		return []string{"log-replay-failed:" + errTok(err)}, nil, 0
-	}
-	// D19 shape of a duplicate: the last record of a file repeated as the very next record of the directory, which is the
-	// first record of a later file (files in between are empty: rotations without writes), with seq+1
-	isRotDup := func(a, b walRec) bool {
-		return a.idx == a.last && b.file > a.file && b.idx == 0 && b.pos == a.pos+1 && b.e.SequenceNumber == a.e.SequenceNumber+1 &&
-			a.e.Type == b.e.Type && bytes.Equal(a.e.Key, b.e.Key) && bytes.Equal(a.e.Value, b.e.Value)
-	}
-	isChain := func(rs []walRec) bool { // every record repeated by the next attempt in the D19 shape
-		for i := 0; i+1 < len(rs); i++ {
-			if !isRotDup(rs[i], rs[i+1]) {
-				return false
-			}
-		}
-		return true
+		return []string{"log-replay-failed:" + errTok(err)}, 0
 	}
 	byVal := map[string][]walRec{}
-	delRecs := map[string][]walRec{}
-	for _, r := range recs {
+	delRecs := map[string]int{}
+	var prev *walRec
+	seqBad := 0
+	for i := range recs {
+		r := recs[i]
+		if prev != nil && r.e.SequenceNumber <= prev.e.SequenceNumber {
+			if seqBad == 0 {
+				bad = append(bad, fmt.Sprintf("seq-not-increasing-%d@file%d.%d-then-%d@file%d.%d", prev.e.SequenceNumber, prev.file, prev.idx,
+					r.e.SequenceNumber, r.file, r.idx))
+			}
+			seqBad++
+		}
+		prev = &recs[i]
 		if r.e.Type == wal.OpTypePut {
 			byVal[string(r.e.Value)] = append(byVal[string(r.e.Value)], r)
 		} else {
-			delRecs[string(r.e.Key)] = append(delRecs[string(r.e.Key)], r)
+			delRecs[string(r.e.Key)]++
 		}
+	}
+	if seqBad > 1 {
+		bad = append(bad, fmt.Sprintf("seq-not-increasing-x%d", seqBad))
 	}
 	ackDel, errDel := map[string]int{}, map[string]int{}
 	for _, o := range ops {
 		k := string(linKey(o.key))
 		switch {
 		case o.kind == 'p' && o.ok:
-			rs := byVal[o.val]
-			switch {
-			case len(rs) == 1 && string(rs[0].e.Key) == k:
-			case len(rs) >= 2 && len(rs) <= 3 && isChain(rs) && string(rs[0].e.Key) == k: // one copy per attempt that hit the window
-				known = append(known, "dup:"+o.val)
-			default:
+			if rs := byVal[o.val]; len(rs) != 1 || string(rs[0].e.Key) != k {
 				bad = append(bad, fmt.Sprintf("acked-put-%s-in-log-%d-times", o.val, len(rs)))
 			}
 		case o.kind == 'p':
-			rs := byVal[o.val]
-			switch {
-			case len(rs) == 0:
-			case len(rs) <= 3 && isChain(rs) && rs[len(rs)-1].idx == rs[len(rs)-1].last &&
-				(strings.Contains(o.errTxt, "WAL_is_rotating") || strings.Contains(o.errTxt, "WAL_is_closed")):
-				known = append(known, "err-in-log:"+o.val)
-			default:
+			if rs := byVal[o.val]; len(rs) != 0 {
 				bad = append(bad, fmt.Sprintf("failed-put-%s-in-log-%d-times(%s)", o.val, len(rs), o.errTxt))
 			}
 		case o.kind == 'd' && o.ok:
@@ -298,39 +307,23 @@ func logCheck(dir string, ops []*linOp) (bad []string, known []string, nrec int)
 			errDel[k]++
 		}
 	}
-	// deletes carry no unique value: count them per key. A rotation duplicate of a delete cannot be told apart from two
-	// acknowledged deletes that happen to sit around a rotation, so only an EXCESS of records is attributed to D19,
-	// and only as far as there are records of the D19 shape (last-of-file + repeated / last-of-file of a failed delete).
-	for k, rs := range delRecs {
-		n, dupShaped, lastOfFile := len(rs), 0, 0
-		for i := range rs {
-			if i+1 < len(rs) && isRotDup(rs[i], rs[i+1]) {
-				dupShaped++
-			}
-			if rs[i].idx == rs[i].last {
-				lastOfFile++
-			}
-		}
-		errShaped := errDel[k]
-		if lastOfFile < errShaped {
-			errShaped = lastOfFile
-		}
-		switch {
-		case n == ackDel[k]:
-		case n > ackDel[k] && n <= ackDel[k]+dupShaped+errShaped:
-			known = append(known, fmt.Sprintf("del:%s+%d", k, n-ackDel[k]))
-		default:
-			bad = append(bad, fmt.Sprintf("deletes-of-%s-in-log-%d-acked-%d-failed-%d-dupShaped-%d", k, n, ackDel[k], errDel[k], dupShaped))
-		}
+	keys := map[string]bool{}
+	for k := range delRecs {
+		keys[k] = true
 	}
-	for k, n := range ackDel {
-		if len(delRecs[k]) == 0 && n > 0 {
-			bad = append(bad, fmt.Sprintf("acked-deletes-of-%s-missing", k))
+	for k := range ackDel {
+		keys[k] = true
+	}
+	for k := range keys {
+		if delRecs[k] != ackDel[k] {
+			bad = append(bad, fmt.Sprintf("deletes-of-%s-in-log-%d-acked-%d-failed-%d", k, delRecs[k], ackDel[k], errDel[k]))
 		}
 	}
 	sort.Strings(bad)
-	sort.Strings(known)
-	return bad, known, len(recs)
+	if len(bad) > 8 {
+		bad = append(bad[:8], fmt.Sprintf("+%d-more", len(bad)-8))
+	}
+	return bad, len(recs)
 }
 
 func linStress(r *runner, p map[string]string) string {
@@ -367,7 +360,11 @@ func linStress(r *runner, p map[string]string) string {
 			}
 		}()
 	}
-	if p["flush"] == "1" { // explicit flushes (FlushImMemTables rotates the log whenever the active table is non-empty)
+	flushPause := 500 * time.Microsecond
+	if p["flush"] == "2" { // back-to-back
+		flushPause = 0
+	}
+	if p["flush"] == "1" || p["flush"] == "2" { // explicit flushes (FlushImMemTables rotates the log whenever the active table is non-empty)
 		helpers.Add(1)
 		go func() {
 			defer helpers.Done()
@@ -375,7 +372,7 @@ func linStress(r *runner, p map[string]string) string {
 				select {
 				case <-stop:
 					return
-				case <-time.After(500 * time.Microsecond):
+				case <-time.After(flushPause):
 					e.FlushImMemTables()
 				}
 			}
@@ -469,8 +466,8 @@ func linStress(r *runner, p map[string]string) string {
 	if err := e.Close(); err != nil {
 		return "bad close " + errTok(err)
 	}
-	// Close does not wait for a rotation that the background flush goroutine has in flight (the old log is flushed by
-	// that goroutine: finding D37 / C07); the log directory is complete only when it is done.
+	// Before 3b93c94 Close did not wait for a rotation that the flush goroutine had in flight (D40); kept as a guard: the
+	// log directory is read only when no rotateWAL call is between its first and last hook site.
 	for deadline := time.Now().Add(30 * time.Second); y.rotating.Load() != 0; time.Sleep(200 * time.Microsecond) {
 		if time.Now().After(deadline) {
 			return "bad hang rotation-did-not-finish-after-close"
@@ -499,7 +496,7 @@ func linStress(r *runner, p map[string]string) string {
 			return fmt.Sprintf("bad lin key=%d history=%s", k, why)
 		}
 	}
-	bad, known, nrec := logCheck(dir, all)
+	bad, nrec := logCheck(dir, all)
 	nsites := 0
 	y.sites.Range(func(_, _ any) bool { nsites++; return true })
 	tail := fmt.Sprintf("ops=%d writeErrs=%d logRecords=%d walFiles=%d flushes=%v sites=%d", len(all), nerr, nrec,
@@ -510,17 +507,10 @@ func linStress(r *runner, p map[string]string) string {
 	if len(bad) > 0 {
 		return "bad log " + strings.Join(bad, ",") + " " + tail
 	}
-	if len(known) > 0 {
-		more := ""
-		if len(known) > 6 {
-			more, known = fmt.Sprintf(",+%d-more", len(known)-6), known[:6]
-		}
-		return "known KF-C06-rotating-append " + strings.Join(known, ",") + more + " " + tail
-	}
 	return "ok lin " + tail
 }
 
-// linD19: the D19 window made deterministic. A writer is parked (by the hook) inside wal.Append right after its record
+// linD19: the D19 window made deterministic (must pass since f92d9b5: the Put succeeds, or fails without any effect). A writer is parked (by the hook) inside wal.Append right after its record
 // was buffered; a flush then marks the log Rotating and is parked until the writer's Put has returned.
 func linD19(r *runner, p map[string]string) string {
 	dir := r.tempDir()
@@ -591,16 +581,175 @@ func linD19(r *runner, p map[string]string) string {
 	afterReopen := err2 == nil
 	desc := fmt.Sprintf("putErr=%v flushErr=%v inMemory=%v inLog=%d visibleAfterReopen=%v", putErr != nil, flushErr != nil, inMem, inLog, afterReopen)
 	switch {
-	case putErr == nil && inMem && inLog == 1 && afterReopen:
+	case putErr == nil && inMem && inLog == 1 && afterReopen: // the repaired behaviour: the sync of a rotating log succeeds
 		return "ok d19 " + desc
-	case putErr != nil && strings.Contains(putErr.Error(), "WAL is rotating") && !inMem && inLog == 1 && lastOfFile && afterReopen:
-		return "known KF-C06-rotating-append err-in-log:v1-d19 " + desc
-	case putErr == nil && inMem && inLog == 2:
-		return "known KF-C06-rotating-append dup:v1-d19 " + desc
-	case putErr != nil && !inMem && inLog == 0 && !afterReopen:
+	case putErr != nil && !inMem && inLog == 0 && !afterReopen: // a failure is acceptable only without any effect
 		return "ok d19 failed-without-effect " + desc
 	}
 	return "bad d19 " + desc
+}
+
+// linSeqRot (C06/C08): writers at full speed (puts with unique values, deletes) for a fixed time against back-to-back
+// explicit flushes, i.e. hundreds of log rotations per second (database on /dev/shm when available so that fsync does
+// not bound the rotation rate). Oracle on the replayed log directory: every acknowledged put exactly once, a failed put
+// nowhere, delete records per key = acknowledged deletes, and the sequence numbers strictly increasing in log order
+// (unique; handed over correctly at every rotation).
+func linSeqRot(r *runner, p map[string]string) string {
+	seed, threads, dur := int64(atoi(p["seed"])), atoi(p["threads"]), time.Duration(atoi(p["ms"]))*time.Millisecond
+	if procs := atoi(p["procs"]); procs > 0 {
+		defer runtime.GOMAXPROCS(runtime.GOMAXPROCS(procs))
+	}
+	dir := ""
+	if st, err := os.Stat("/dev/shm"); err == nil && st.IsDir() {
+		if d, err := os.MkdirTemp("/dev/shm", "kvh-"); err == nil {
+			dir = d
+			r.tmp = append(r.tmp, d)
+		}
+	}
+	if dir == "" {
+		dir = r.tempDir()
+	}
+	e, err := openLinEngine(dir, 256<<10, "none") // small tables: a flush stays cheap, so rotations stay frequent
+	if err != nil {
+		return "bad open " + errTok(err)
+	}
+	y := &yielder{seed: uint64(seed)}
+	y.quiet.Store(true)
+	verifhook.Set(y.at)
+	defer verifhook.Set(nil)
+	var stop atomic.Bool
+	var helpers, wg sync.WaitGroup
+	helpers.Add(1)
+	go func() {
+		defer helpers.Done()
+		for !stop.Load() {
+			e.FlushImMemTables()
+		}
+	}()
+	const maxOps = 1 << 20
+	acked := make([][]uint8, threads) // per thread and op index: 0 not issued, 1 put acked, 2 put failed
+	ackDel, errDel := make([][4]int, threads), make([][4]int, threads)
+	firstErr := make([]string, threads)
+	deadline := time.Now().Add(dur)
+	for t := 0; t < threads; t++ {
+		wg.Add(1)
+		acked[t] = make([]uint8, 0, 1<<16)
+		go func(t int) {
+			defer wg.Done()
+			rnd := rand.New(rand.NewSource(seed*257 + int64(t)))
+			for i := 0; i < maxOps && (i%64 != 0 || time.Now().Before(deadline)); i++ {
+				k := rnd.Intn(4)
+				var err error
+				if rnd.Intn(5) == 0 {
+					if err = e.Delete(linKey(k)); err == nil {
+						ackDel[t][k]++
+					} else {
+						errDel[t][k]++
+					}
+					acked[t] = append(acked[t], 0)
+				} else {
+					if err = e.Put(linKey(k), []byte(fmt.Sprintf("s%d.%d", t, i))); err == nil {
+						acked[t] = append(acked[t], 1)
+					} else {
+						acked[t] = append(acked[t], 2)
+					}
+				}
+				if err != nil && firstErr[t] == "" {
+					firstErr[t] = errTok(err)
+				}
+			}
+		}(t)
+	}
+	finished := make(chan struct{})
+	go func() { wg.Wait(); close(finished) }()
+	select {
+	case <-finished:
+	case <-time.After(dur + 120*time.Second):
+		return "bad hang writers-did-not-finish"
+	}
+	stop.Store(true)
+	helpers.Wait()
+	if err := e.Close(); err != nil {
+		return "bad close " + errTok(err)
+	}
+	for dl := time.Now().Add(30 * time.Second); y.rotating.Load() != 0; time.Sleep(200 * time.Microsecond) {
+		if time.Now().After(dl) {
+			return "bad hang rotation-did-not-finish-after-close"
+		}
+	}
+	recs, err := replayPerFile(filepath.Join(dir, "wal"))
+	if err != nil {
+		return "bad log-replay " + errTok(err)
+	}
+	var bad []string
+	add := func(format string, a ...any) {
+		if len(bad) < 6 {
+			bad = append(bad, fmt.Sprintf(format, a...))
+		}
+	}
+	seen := make([][]uint8, threads)
+	for t := range seen {
+		seen[t] = make([]uint8, len(acked[t]))
+	}
+	var delRecs [4]int
+	var prev *walRec
+	for i := range recs {
+		rc := recs[i]
+		if prev != nil && rc.e.SequenceNumber <= prev.e.SequenceNumber {
+			add("seq-not-increasing-%d@file%d.%d-then-%d@file%d.%d", prev.e.SequenceNumber, prev.file, prev.idx, rc.e.SequenceNumber, rc.file, rc.idx)
+		}
+		prev = &recs[i]
+		var k int
+		fmt.Sscanf(string(rc.e.Key), "key-%d", &k)
+		if rc.e.Type != wal.OpTypePut {
+			delRecs[k%4]++
+			continue
+		}
+		var t, i2 int
+		if n, _ := fmt.Sscanf(string(rc.e.Value), "s%d.%d", &t, &i2); n != 2 || t < 0 || t >= threads || i2 < 0 || i2 >= len(seen[t]) {
+			add("foreign-record-%s", hx(rc.e.Value))
+			continue
+		}
+		if seen[t][i2] < 255 {
+			seen[t][i2]++
+		}
+	}
+	nops, nerr, errTxt := 0, 0, ""
+	for t := 0; t < threads; t++ {
+		nops += len(acked[t])
+		if firstErr[t] != "" && errTxt == "" {
+			errTxt = firstErr[t]
+		}
+		for i, a := range acked[t] {
+			switch {
+			case a == 1 && seen[t][i] != 1:
+				add("acked-put-s%d.%d-in-log-%d-times", t, i, seen[t][i])
+			case a == 2 && seen[t][i] != 0:
+				add("failed-put-s%d.%d-in-log-%d-times", t, i, seen[t][i])
+			}
+			if a == 2 {
+				nerr++
+			}
+		}
+	}
+	for k := 0; k < 4; k++ {
+		a, f := 0, 0
+		for t := 0; t < threads; t++ {
+			a, f = a+ackDel[t][k], f+errDel[t][k]
+		}
+		nerr += f
+		if delRecs[k] != a {
+			add("deletes-of-key-%02d-in-log-%d-acked-%d-failed-%d", k, delRecs[k], a, f)
+		}
+	}
+	tail := fmt.Sprintf("ops=%d writeErrs=%d logRecords=%d walFiles=%d", nops, nerr, len(recs), len(walFiles(filepath.Join(dir, "wal"))))
+	if errTxt != "" {
+		tail += " errs=" + errTxt
+	}
+	if len(bad) > 0 {
+		return "bad log " + strings.Join(bad, ",") + " " + tail
+	}
+	return "ok seqrot " + tail
 }
 
 func runLin(r *runner) {
@@ -619,6 +768,8 @@ func runLin(r *runner) {
 			switch ws[0] {
 			case "stress":
 				out = linStress(r, parseKV(ws[1:]))
+			case "seqrot":
+				out = linSeqRot(r, parseKV(ws[1:]))
 			case "d19":
 				out = linD19(r, parseKV(ws[1:]))
 			default:
